@@ -1644,6 +1644,11 @@ func (c *compiler) VisitTernaryExpr(e *ast.TernaryExpr) ast.VisitResult {
 		c.cbb.NewBr(leaveBlock)
 		falseBlock = c.cbb
 
+		// primitives are never temporaries (the flag is stale for them)
+		if lhsTyp.IsPrimitive() {
+			lhsIsTemp, rhsIsTemp = false, false
+		}
+
 		// simple case, where both can be treated the same way
 		if lhsIsTemp == rhsIsTemp {
 			c.latestIsTemp = lhsIsTemp
